@@ -452,3 +452,146 @@ Proof.
   - now apply Hr in E.
 Qed.
 End Total.
+
+(* ---- the decoder always terminates with a definite outcome: fuel only bounds nesting and every level consumes a byte ---- *)
+Lemma take_upto_len n (bs a b : list byte) : take_upto n bs = (a, b) -> (length b <= length bs)%nat.
+Proof.
+  unfold take_upto. destruct (nlen bs <=? n)%N; intros [= <- <-]; [cbn; lia|]. rewrite skipn_length. lia.
+Qed.
+
+Section Shrink.
+Variable P : bparams.
+Variable rec : list byte -> result (pyval * list byte).
+Hypothesis rec_shrinks : forall bs v r, rec bs = Ok (v, r) -> (length r < length bs)%nat.
+
+Lemma items_shrinks : forall k n bs acc l r, items rec k n bs acc = Ok (l, r) -> (length r <= length bs)%nat.
+Proof.
+  induction k as [|k IH]; intros n bs acc l r; cbn [items]; destruct (n =? 0)%N; try discriminate; try (intros [= <- <-]; lia).
+  destruct (rec bs) as [[y r']| | |] eqn:E; cbn [bind]; try discriminate.
+  intros H. apply IH in H. apply rec_shrinks in E. lia.
+Qed.
+Lemma tup_of_shrinks n r v r' : tup_of rec n r = Ok (v, r') -> (length r' <= length r)%nat.
+Proof.
+  unfold tup_of. destruct (items rec (S (length r)) n r []) as [[l r'']| | |] eqn:E; cbn [bind]; try discriminate.
+  intros [= <- <-]. now apply items_shrinks in E.
+Qed.
+Lemma bytes_of_shrinks n r v r' : bytes_of n r = Ok (v, r') -> (length r' <= length r)%nat.
+Proof. unfold bytes_of. destruct (take_upto n r) eqn:E. intros [= <- <-]. now apply take_upto_len in E. Qed.
+Lemma int_of_shrinks n r v r' : int_of P n r = Ok (v, r') -> (length r' <= length r)%nat.
+Proof.
+  unfold int_of. destruct (take_upto n r) eqn:E. destruct (parse _ _); cbn [bind]; try discriminate.
+  intros [= <- <-]. now apply take_upto_len in E.
+Qed.
+
+Lemma load_body_shrinks bs v r : load_body P rec bs = Ok (v, r) -> (length r < length bs)%nat.
+Proof.
+  unfold load_body. destruct bs as [|t bs]; [discriminate|]. cbn [length].
+  destruct ((32 <=? to_N t) && (to_N t <? 240))%N; [intros [= <- <-]; lia|].
+  unfold with_I1, with_I4.
+  destruct t; try discriminate; try (intros [= <- <-]; lia);
+    try (intros H; first [apply bytes_of_shrinks in H|apply tup_of_shrinks in H]; lia);
+    try (destruct bs as [|n1 bs]; [discriminate|]; intros H; first [apply bytes_of_shrinks in H|apply tup_of_shrinks in H|apply int_of_shrinks in H]; cbn [length]; lia);
+    try (destruct bs as [|n1 [|n2 [|n3 [|n4 bs]]]]; try discriminate; intros H;
+         first [apply bytes_of_shrinks in H|apply tup_of_shrinks in H|apply int_of_shrinks in H]; cbn [length]; lia).
+  - destruct (rec bs) as [[o r']| | |] eqn:E; cbn [bind]; try discriminate. apply rec_shrinks in E.
+    destruct o; try discriminate. destruct (utf8_decode (sp P) b); try discriminate. intros [= <- <-]. lia.
+  - destruct (take_upto 8 bs) eqn:E. destruct (nlen l =? 8)%N; [|discriminate]. intros [= <- <-]. apply take_upto_len in E. lia.
+  - destruct (rec bs) as [[o r']| | |] eqn:E; cbn [bind]; try discriminate. apply rec_shrinks in E.
+    destruct (iter_elems true o) as [es| | |]; cbn [bind]; try discriminate.
+    destruct es as [|a [|b [|c [|d es]]]]; try discriminate. intros [= <- <-]. lia.
+  - destruct (rec bs) as [[o r']| | |] eqn:E; cbn [bind]; try discriminate. apply rec_shrinks in E.
+    destruct (iter_elems false o) as [es| | |]; cbn [bind]; try discriminate. intros [= <- <-]. lia.
+  - destruct (take_upto 16 bs) eqn:E. destruct (nlen l =? 16)%N; [|discriminate]. intros [= <- <-]. apply take_upto_len in E. lia.
+Qed.
+End Shrink.
+
+Lemma load_f_shrinks P : forall f bs v r, load_f P f bs = Ok (v, r) -> (length r < length bs)%nat.
+Proof.
+  induction f as [|f IH]; intros bs v r; cbn [load_f]; [discriminate|]. apply load_body_shrinks. exact IH.
+Qed.
+
+Section NoFuel.
+Variable P : bparams.
+Variable rec : list byte -> result (pyval * list byte).
+Variable bound : nat.
+Hypothesis rec_shrinks : forall bs v r, rec bs = Ok (v, r) -> (length r < length bs)%nat.
+Hypothesis rec_total : forall bs, (length bs < bound)%nat -> rec bs <> OutOfFuel.
+
+Lemma items_total' : forall k n bs acc, (length bs < k)%nat -> (length bs < bound)%nat -> items rec k n bs acc <> OutOfFuel.
+Proof.
+  induction k as [|k IH]; intros n bs acc Hk Hb; [lia|]. cbn [items]. destruct (n =? 0)%N; [discriminate|].
+  destruct (rec bs) as [[y r]| | |] eqn:E; cbn [bind]; try discriminate.
+  - apply rec_shrinks in E. apply IH; lia.
+  - now apply rec_total in E.
+Qed.
+Lemma tup_of_total n r : (length r < bound)%nat -> tup_of rec n r <> OutOfFuel.
+Proof.
+  intros Hb. unfold tup_of. destruct (items rec (S (length r)) n r []) as [[l r'']| | |] eqn:E; cbn [bind]; try discriminate.
+  exfalso. revert E. apply items_total'; lia.
+Qed.
+Lemma bytes_of_total n r : bytes_of n r <> OutOfFuel.
+Proof. unfold bytes_of. destruct (take_upto n r). discriminate. Qed.
+Lemma int_of_total n r : int_of P n r <> OutOfFuel.
+Proof. unfold int_of. destruct (take_upto n r). unfold parse. destruct (_ : list byte) ; cbn; repeat match goal with |- context [match ?x with _ => _ end] => destruct x end; cbn; try discriminate. Qed.
+End NoFuel.
+
+Lemma dec1_shrinks sp l c r : dec1 sp l = Some (c, r) -> (length r < length l)%nat.
+Proof.
+  unfold dec1. destruct l as [|b0 t0]; [discriminate|]. cbn [length].
+  repeat match goal with
+  | |- context [if ?c then _ else _] => destruct c
+  | |- context [match ?l with [] => _ | _ :: _ => _ end] => destruct l
+  end; try discriminate; intros [= <- <-]; cbn [length]; lia.
+Qed.
+Lemma utf8_decode_f_total sp : forall f l, (length l <= f)%nat -> utf8_decode_f f sp l <> OutOfFuel.
+Proof.
+  induction f as [|f IH]; intros l Hl; destruct l as [|b t]; cbn [utf8_decode_f]; try discriminate; [cbn in Hl; lia|].
+  destruct (dec1 sp (b :: t)) as [[c r]|] eqn:E; [|discriminate].
+  apply dec1_shrinks in E. specialize (IH r ltac:(cbn [length] in *; lia)).
+  destruct (utf8_decode_f f sp r); cbn [bind]; try discriminate. congruence.
+Qed.
+
+Section NoFuel2.
+Variable P : bparams.
+Variable rec : list byte -> result (pyval * list byte).
+Variable bound : nat.
+Hypothesis rec_shrinks : forall bs v r, rec bs = Ok (v, r) -> (length r < length bs)%nat.
+Hypothesis rec_total : forall bs, (length bs < bound)%nat -> rec bs <> OutOfFuel.
+
+Lemma load_body_total bs : (length bs <= bound)%nat -> load_body P rec bs <> OutOfFuel.
+Proof.
+  unfold load_body. destruct bs as [|t bs]; [discriminate|]. cbn [length]. intros Hb.
+  destruct ((32 <=? to_N t) && (to_N t <? 240))%N; [discriminate|].
+  assert (Hr : rec bs <> OutOfFuel) by (apply rec_total; lia).
+  assert (Ht : forall n r, (length r <= length bs)%nat -> tup_of rec n r <> OutOfFuel)
+    by (intros n r Hl; apply (tup_of_total rec bound rec_shrinks rec_total); lia).
+  unfold with_I1, with_I4.
+  destruct t; try discriminate; try apply bytes_of_total; try (apply Ht; lia);
+    try (destruct bs as [|n1 bs]; [discriminate|]; first [apply bytes_of_total|apply int_of_total|apply Ht; cbn [length]; lia]);
+    try (destruct bs as [|n1 [|n2 [|n3 [|n4 bs]]]]; try discriminate; first [apply bytes_of_total|apply int_of_total|apply Ht; cbn [length]; lia]).
+  - destruct (rec bs) as [[o r']| | |]; cbn [bind]; try discriminate; [|congruence].
+    destruct o; try discriminate. pose proof (utf8_decode_f_total (sp P) (length b) b (le_n _)) as X. unfold utf8_decode.
+    destruct (utf8_decode_f (length b) (sp P) b); try discriminate. congruence.
+  - destruct (take_upto 8 bs). destruct (nlen l =? 8)%N; discriminate.
+  - destruct (rec bs) as [[o r']| | |]; cbn [bind]; try discriminate; [|congruence].
+    destruct (iter_elems true o) as [es| | |] eqn:Ei; cbn [bind]; try discriminate.
+    + destruct es as [|a [|b [|c [|d es]]]]; discriminate.
+    + destruct o; cbn in Ei; try discriminate.
+  - destruct (rec bs) as [[o r']| | |]; cbn [bind]; try discriminate; [|congruence].
+    destruct (iter_elems false o) as [es| | |] eqn:Ei; cbn [bind]; try discriminate.
+    destruct o; cbn in Ei; try discriminate.
+  - destruct (take_upto 16 bs). destruct (nlen l =? 16)%N; discriminate.
+Qed.
+End NoFuel2.
+
+Theorem load_f_total P : forall f bs, (length bs < f)%nat -> load_f P f bs <> OutOfFuel.
+Proof.
+  induction f as [|f IH]; intros bs Hl; [lia|]. cbn [load_f].
+  apply (load_body_total P (load_f P f) f (load_f_shrinks P f) IH). lia.
+Qed.
+
+Theorem load_total P bs : load P bs <> OutOfFuel.
+Proof.
+  unfold load. pose proof (load_f_total P (S (length bs)) bs (Nat.lt_succ_diag_r _)) as H.
+  destruct (load_f P (S (length bs)) bs) as [[v r]| | |]; cbn [bind]; try discriminate. congruence.
+Qed.
